@@ -28,7 +28,7 @@ pub fn v_str_len(s: &String) -> (r: usize)
 pub struct ExFromUtf8Error(std::string::FromUtf8Error);
 //@trusted v_string_from_utf8: String::from_utf8(v) is Ok(s) with as_bytes(s) == v exactly when v is valid UTF-8
 #[verifier::external_body]
-pub fn v_string_from_utf8(v: Vec<u8>) -> (r: Result<String, std::string::FromUtf8Error>)
+pub fn v_string_from_utf8(v: Vec<u8>) -> (r: core::result::Result<String, std::string::FromUtf8Error>)
     ensures r is Ok <==> is_utf8(v@), r is Ok ==> str_bytes(r->Ok_0@) == v@
 { String::from_utf8(v) }
 //@trusted v_slice_len: a slice never holds more than isize::MAX bytes (language guarantee)
@@ -90,3 +90,7 @@ pub proof fn lemma_le64_roundtrip(x: u64)
 {
     vstd::bytes::lemma_auto_spec_u64_to_from_le_bytes();
 }
+
+#[verifier::external_type_specification]
+#[verifier::external_body]
+pub struct ExIoError(std::io::Error);
